@@ -96,8 +96,8 @@ def _install_contract():
 
 
 def cases(tier: str, seed: int) -> list[dict]:
-    n_lim = 400 if tier == 'quick' else 20000
-    n_xfer = 30 if tier == 'quick' else 1000
+    n_lim = 400 if tier == 'quick' else 40000
+    n_xfer = 30 if tier == 'quick' else 2000
     out = []
     for i in range(n_lim):
         out.append({'kind': 'limiter', 'seed': seed, 'i': i})
